@@ -279,6 +279,23 @@ def single_def(ctx: Ctx, fi: FuncInfo, expr: ast.AST, depth: int = 0) -> ast.AST
     return expr
 
 
+def map_vars_func(ctx: Ctx) -> FuncInfo:
+    """The function that rewrites the variables of a tree: `_map_vars`, or - under another name - the module-level function of penman.tree that
+    Tree.reset_variables applies to self.node and assigns back (`self.node = f(self.node, <map>)`)."""
+    fi = ctx.repo.maybe_func('penman.tree', '_map_vars')
+    if fi is not None:
+        return fi
+    rv = ctx.repo.func('penman.tree', 'Tree.reset_variables')
+    for n in walk_local(rv.node):
+        if isinstance(n, ast.Assign) and norm(n.targets[0]) == 'self.node' and isinstance(n.value, ast.Call) and isinstance(n.value.func, ast.Name):
+            given = list(n.value.args) + [k.value for k in n.value.keywords]
+            if any(norm(a) == 'self.node' for a in given):
+                f2 = ctx.repo.maybe_func('penman.tree', n.value.func.id)
+                if f2 is not None:
+                    return f2
+    raise AnalysisError('anchor vanished: function penman.tree:_map_vars (and no function that Tree.reset_variables applies to self.node)')
+
+
 def _is_call(expr, recv: Optional[str], attr: str) -> bool:
     return isinstance(expr, ast.Call) and isinstance(expr.func, ast.Attribute) and expr.func.attr == attr \
         and (recv is None or (isinstance(expr.func.value, ast.Name) and expr.func.value.id == recv))
